@@ -158,6 +158,7 @@ type IfaceV struct {
 type FuncV struct {
 	Fn   interface{} // *ssa.Function or *ssa.Builtin
 	Bind []Val
+	Once *Ptr // sync.OnceValue / OnceFunc: the cell that keeps the first call's result
 }
 
 type MapV struct{ Obj int }
@@ -236,7 +237,7 @@ func cloneVal(v Val) Val {
 		x.V = cloneVal(x.V)
 		return x
 	case *FuncV:
-		n := &FuncV{Fn: x.Fn, Bind: make([]Val, len(x.Bind))}
+		n := &FuncV{Fn: x.Fn, Bind: make([]Val, len(x.Bind)), Once: x.Once}
 		for i, f := range x.Bind {
 			n.Bind[i] = cloneVal(f)
 		}
@@ -363,6 +364,9 @@ func fmtVal(v Val, ptrName func(int) string) string {
 		for i, f := range x.Bind {
 			parts[i] = fmtVal(f, ptrName)
 		}
+		if x.Once != nil {
+			return fmt.Sprintf("oncefunc(%v|%s|%s)", x.Fn, strings.Join(parts, ","), ptrName(x.Once.Obj))
+		}
 		return fmt.Sprintf("func(%v|%s)", x.Fn, strings.Join(parts, ","))
 	case MapV:
 		return "map" + ptrName(x.Obj)
@@ -433,6 +437,9 @@ func valRefs(v Val, out *[]int) {
 	case *FuncV:
 		for _, f := range x.Bind {
 			valRefs(f, out)
+		}
+		if x.Once != nil {
+			*out = append(*out, x.Once.Obj)
 		}
 	}
 }
